@@ -20,7 +20,9 @@
 (* pairs (large loop, DC) the B entity consists of groups 1..2 (transmitter loops / current     *)
 (* dipoles) and station s of A refers to group (s+1) \div 2 through its "Transmitter ID" /      *)
 (* "A-B Cell ID" property.  Masks lo/mid/hi select stations {1,2} / {2,3} / {3,4} and groups    *)
-(* {1} / {} / {2}.                                                                             *)
+(* {1} / {} / {2}.  Pair LLFEM has a third loop nobody refers to (loops 1, 2, 3; stations 1,2 ->  *)
+(* loop 1, stations 3,4 -> loop 3; masks select loops {1,2} / {2} / {3}): a copy made through the  *)
+(* transmitters keeps such a loop, a copy made through the receivers does not.                     *)
 (*                                                                                             *)
 (* Metadata is abstracted to Meta = [has, pa, pb, tx, par]:                                    *)
 (*   has  the entity has a metadata dictionary at all (DC electrodes have none before linking) *)
@@ -56,6 +58,14 @@
 (*                         (base.py:461-465) and edit_em_metadata changes it in place             *)
 (*                         (base.py:356-362): when an entity links to a new partner, its former   *)
 (*                         partner's live metadata silently becomes the new pair's (its file not) *)
+(*   CopyFailsOnGroupedIdData  CellObject.copy leaves the "A-B Cell ID" / "Transmitter ID" child out of  *)
+(*                         the children map (cell_object.py:203) but copy_property_groups looks every    *)
+(*                         member of a property group up in it (workspace.py:327): a survey whose        *)
+(*                         property group holds its id data cannot be copied (KeyError), the half-made   *)
+(*                         copies stay behind, unlinked                                                  *)
+(*   GroupCopyDuplicatesPair  copying a group copies each child; each linked survey child brings its     *)
+(*                         partner along (base.py:260-267, direct_current.py:157-186): a group holding   *)
+(*                         a pair ends up with two copied pairs                                          *)
 (* The specification is explored with Deviations = {} (ideal); every transition additionally   *)
 (* exports, as last.alt, the state the same action yields with all KnownDevs switched on, so   *)
 (* that the harness can recognise exactly these behaviours and nothing else.                   *)
@@ -75,6 +85,8 @@ CONSTANTS
     ValuesPerOp, \* 1, 2 or 3: how many of the accepted values of a setter are tried
     EditWhen,    \* "always" | "copied": "copied" = edits only once all MaxCopies copies exist (isolation of copies)
     Extras,      \* 0: originals A, B ; 1: a second A (entity 3) ; 2: a second A and a second B (entities 3, 4): re-linking
+    IdInGroup,   \* TRUE (large loop, DC): the A entity has a property group holding its "Transmitter ID" / "A-B Cell ID" data
+    InGroup,     \* TRUE: the originals are children of a container group and copies are made by copying that group
     Deviations   \* {} = ideal
 
 VARIABLES ents, step, nedits, ncopies, nreopens, focus, last
@@ -83,7 +95,7 @@ vw == <<ents>>        \* VIEW: counters, focus and last never multiply states
 
 KnownDevs == {"WaveformAliased", "LinkFromTxDropsTxId", "InputTypeSetterMLFEM", "UnitSetterTIP",
               "LoopRadiusNoneHalfApplied", "TipperSingleBaseMaskedCopy", "RelinkKeepsCachedPartner",
-              "RelinkLeavesSharedDictionary"}
+              "RelinkLeavesSharedDictionary", "CopyFailsOnGroupedIdData", "GroupCopyDuplicatesPair"}
 
 \* ------------------------------------------------------------------ class pair traits
 Family     == IF Pair = "DC" THEN "dc" ELSE "em"
@@ -151,7 +163,8 @@ ValSeq(op) ==
       [] op = "loop_radius" -> <<"r1", "none", "r2">>
       [] op = "waveform" -> <<"w1", "w2">>
       [] op = "timing_mark" -> <<"t1", "t2">>
-      [] op \in OffsetOps -> <<"f1", "p1", "none">>
+      [] op \in {"crossline_offset", "pitch", "vertical_offset"} -> <<"f1", "none", "p1">>   \* removal (None) is always tried
+      [] op \in OffsetOps -> <<"p1", "none", "f1">>
       [] op = "relative_to_bearing" -> <<"true", "none", "false">>
       [] op = "edit_em_metadata" -> <<"x1", "none", "x2">>
       [] OTHER -> <<"x2", "none">>                  \* edit_metadata, the deprecated alias (base.py:353-366)
@@ -183,8 +196,11 @@ CopyPar(par) == [f \in Fields |-> IF par[f] = "absent" \/ f \in PropFields THEN 
 \* ------------------------------------------------------------------ geometry
 AllStations == 1..4
 St(m) == CASE m = "lo" -> {1, 2} [] m = "mid" -> {2, 3} [] m = "hi" -> {3, 4} [] OTHER -> AllStations
-Gr(m) == CASE m = "lo" -> {1} [] m = "mid" -> {} [] m = "hi" -> {2} [] OTHER -> {1, 2}
-GrpOf(s) == (s + 1) \div 2
+SpareLoop == Pair = "LLFEM"
+AllGroups == IF SpareLoop THEN {1, 2, 3} ELSE {1, 2}
+Gr(m) == IF SpareLoop THEN (CASE m = "lo" -> {1, 2} [] m = "mid" -> {2} [] m = "hi" -> {3} [] OTHER -> AllGroups)
+         ELSE (CASE m = "lo" -> {1} [] m = "mid" -> {} [] m = "hi" -> {2} [] OTHER -> AllGroups)
+GrpOf(s) == IF SpareLoop THEN (IF s <= 2 THEN 1 ELSE 3) ELSE (s + 1) \div 2
 \* what a mask keeps of an entity's own geometry (cell_object.py:54-77: vertices without a complete cell are dropped)
 Sel(role, geo, m) ==
     IF m = "-" THEN geo
@@ -235,7 +251,7 @@ InitEnts ==
     LET ma == IF Family = "dc" THEN NoMeta
               ELSE [OwnMeta(1, "A") EXCEPT !.tx = IF LargeLoop THEN 1 ELSE 0]   \* rx.tx_id_property = ... (base.py:799-800)
         mb == IF Family = "dc" THEN NoMeta ELSE OwnMeta(2, "B")
-        gb == IF Grouped THEN {1, 2} ELSE IF Pair = "TIP1" THEN {1} ELSE AllStations
+        gb == IF Grouped THEN AllGroups ELSE IF Pair = "TIP1" THEN {1} ELSE AllStations
         base == <<MkEnt(1, "A", ma, AllStations), MkEnt(2, "B", mb, gb)>>
         a2 == MkEnt(3, "A", IF Family = "dc" THEN NoMeta ELSE [OwnMeta(3, "A") EXCEPT !.tx = IF LargeLoop THEN 3 ELSE 0],
                     AllStations)
@@ -392,24 +408,68 @@ OrphanRes(E, i, m, destws) ==
 CopyBreaks(i, m, dev) == /\ Pair = "TIP1" /\ "TipperSingleBaseMaskedCopy" \in dev
                          /\ ents[i].role = "A" /\ m # "-" /\ ents[i].ptr # 0
 
+\* as built (IdInGroup): the copy of the A entity stops in copy_property_groups, after the object and its children
+\* were created and before any metadata was copied or any link made; copying through B first makes B's copy
+UnlinkedCopy(E, i, geo, destws, withpar) ==
+    LET n == Len(E) + 1
+        own == IF Family = "dc" THEN NoMeta
+               ELSE [OwnMeta(n, E[i].role) EXCEPT !.par = IF withpar THEN CopyPar(E[i].live.par) ELSE DefPar]
+    IN Append(E, [role |-> E[i].role, ws |-> destws, live |-> own, file |-> own, ptr |-> 0, geo |-> geo,
+                  src |-> i, mate |-> 0, al |-> IF TrackAlias THEN {n} ELSE {}])
+PgFailRes(E, i, m, destws) ==
+    LET e == E[i]
+        g1 == Sel(e.role, e.geo, m)
+    IN IF e.role = "A" THEN Settle(UnlinkedCopy(E, i, g1, destws, FALSE))
+       ELSE Settle(UnlinkedCopy(UnlinkedCopy(E, i, g1, destws, TRUE), e.ptr, PartnerGeo("B", g1, E[e.ptr].geo), destws, FALSE))
+PgBreaks(i, dev) == /\ IdInGroup /\ Grouped /\ "CopyFailsOnGroupedIdData" \in dev
+                    /\ (ents[i].role = "A" \/ ents[i].ptr # 0)
+
 Copy(i, how, m, dest) ==
     /\ ncopies < MaxCopies
+    /\ ~InGroup
     /\ ~Abandoned(ents, i)
     /\ (how = "plain") <=> (m = "-")
     /\ (Pair = "TIP1" /\ ents[i].role = "B") => m = "-"     \* a single vertex has no segment to select (cell_object.py:67-75)
     /\ LET none == CopySel(i, m) = {}                     \* copy_from_extent returns None (entity_container.py:149-151)
            dws  == IF dest = "same" THEN ents[i].ws ELSE 3 - ents[i].ws
-           brk  == ~none /\ CopyBreaks(i, m, Deviations)
-           brkA == ~none /\ CopyBreaks(i, m, KnownDevs)
-           E2   == IF none THEN ents ELSE IF brk THEN OrphanRes(ents, i, m, dws) ELSE CopyRes(ents, i, m, dws)
-           EA   == IF none THEN ents ELSE IF brkA THEN OrphanRes(ents, i, m, dws) ELSE CopyRes(ents, i, m, dws)
+           Res(dev) == IF none THEN ents
+                       ELSE IF PgBreaks(i, dev) THEN PgFailRes(ents, i, m, dws)
+                       ELSE IF CopyBreaks(i, m, dev) THEN OrphanRes(ents, i, m, dws)
+                       ELSE CopyRes(ents, i, m, dws)
+           Out(dev) == IF none THEN "none" ELSE IF PgBreaks(i, dev) \/ CopyBreaks(i, m, dev) THEN "refused" ELSE "ok"
+           E2   == Res(Deviations)
+           EA   == Res(KnownDevs)
        IN /\ (how = "mask") => ~none                       \* a boolean mask selecting nothing is not exercised
           /\ ents' = E2
           /\ last' = [NoLast EXCEPT !.act = "Copy", !.i = i, !.how = how, !.m = m, !.dest = dest,
-                                    !.out = IF none THEN "none" ELSE IF brk THEN "refused" ELSE "ok",
+                                    !.out = Out(Deviations),
+                                    !.alt = IF EA = E2 /\ Out(KnownDevs) = Out(Deviations) THEN <<>> ELSE EA,
+                                    !.altout = Out(KnownDevs),
+                                    !.dev = IF EA = E2 /\ Out(KnownDevs) = Out(Deviations) THEN "-"
+                                            ELSE IF PgBreaks(i, KnownDevs) THEN "CopyFailsOnGroupedIdData"
+                                            ELSE "TipperSingleBaseMaskedCopy"]
+    /\ ncopies' = ncopies + 1
+    /\ UNCHANGED <<nedits, nreopens, focus>>
+
+\* ------------------------------------------------------------------ CopyGroup(dest)
+\*   the originals are the children of one container group; group.copy(parent) copies every child into the new group
+\*   (groups/base.py).  Specified: every child is copied once and the copies of a linked pair are linked to each other.
+\*   As built each linked child brings its partner along, so the pair arrives twice.
+CopyGroupRes(E, destws, dev) ==
+    IF ~HasPartner THEN CopyRes(E, 1, "-", destws)
+    ELSE IF E[1].ptr = 2 /\ "GroupCopyDuplicatesPair" \notin dev THEN CopyRes(E, 1, "-", destws)
+    ELSE CopyRes(CopyRes(E, 1, "-", destws), 2, "-", destws)
+
+CopyGroup(dest) ==
+    /\ InGroup /\ ncopies < MaxCopies
+    /\ Len(ents) = NOrig /\ Extras = 0                   \* the group holds the originals only
+    /\ LET dws == IF dest = "same" THEN 1 ELSE 2
+           E2  == CopyGroupRes(ents, dws, Deviations)
+           EA  == CopyGroupRes(ents, dws, KnownDevs)
+       IN /\ ents' = E2
+          /\ last' = [NoLast EXCEPT !.act = "CopyGroup", !.dest = dest,
                                     !.alt = IF EA = E2 THEN <<>> ELSE EA,
-                                    !.altout = IF none THEN "none" ELSE IF brkA THEN "refused" ELSE "ok",
-                                    !.dev = IF EA = E2 THEN "-" ELSE "TipperSingleBaseMaskedCopy"]
+                                    !.dev = IF EA = E2 THEN "-" ELSE "GroupCopyDuplicatesPair"]
     /\ ncopies' = ncopies + 1
     /\ UNCHANGED <<nedits, nreopens, focus>>
 
@@ -437,6 +497,7 @@ Act ==
               dest == IF hd \in {"plain-same", "mask-same", "extent-same"} THEN "same" ELSE "other"
           IN IF how = "plain" THEN Copy(i, how, "-", dest)
              ELSE \E m \in MaskNames : Copy(i, how, m, dest)
+    \/ \E d \in {"same", "other"} : CopyGroup(d)
     \/ Reopen
 
 Next == /\ step < MaxDepth
@@ -496,9 +557,16 @@ CopyCopiesPartner ==
             /\ ents'[Len(ents) + 2].ptr = Len(ents) + 1
             /\ \A x \in DOMAIN ents : [ents'[x] EXCEPT !.al = {}] = [ents[x] EXCEPT !.al = {}]]_vars
 
+\* copying the group that holds a linked pair yields exactly one copy of each, linked to each other
+GroupCopyOnce == [][(last'.act = "CopyGroup") => Len(ents') = Len(ents) + NOrig]_vars
+
 \* grouped pairs: the partner holds exactly the loops / dipoles the receivers refer to
 GroupsExact == Grouped => \A i \in Ids : (ents[i].role = "A" /\ Linked(i)) =>
-                  ents[ents[i].ptr].geo = {GrpOf(s) : s \in ents[i].geo}
+                  LET referred == {GrpOf(s) : s \in ents[i].geo}
+                      copiedThroughA == ents[i].src # 0 /\ ents[i].mate = i + 1
+                  IN /\ referred \subseteq ents[ents[i].ptr].geo
+                     \* a copy made through the receivers (or of a survey without spare loops) brings exactly those
+                     /\ (copiedThroughA \/ ~SpareLoop) => ents[ents[i].ptr].geo = referred
 
 \* an edit touches the edited entity and its partner, nobody else (copies are not tied to their originals)
 EditIsLocal ==
@@ -520,7 +588,7 @@ ShownMeta(m) == [has |-> m.has, pa |-> m.pa, pb |-> m.pb, tx |-> m.tx,
 Shown(E) == [x \in DOMAIN E |-> [role |-> E[x].role, ws |-> E[x].ws, live |-> ShownMeta(E[x].live),
                                   file |-> IF E[x].file = E[x].live THEN [same |-> TRUE] ELSE ShownMeta(E[x].file),
                                   ptr |-> E[x].ptr, geo |-> E[x].geo, refs |-> Refs(E, x)]]
-ASSUME PrintT(<<"CASE", ToJson([pair |-> Pair, defpar |-> DefPar])>>)
+ASSUME PrintT(<<"CASE", ToJson([pair |-> Pair, defpar |-> DefPar, idingroup |-> IdInGroup, ingroup |-> InGroup])>>)
 ExportState == PrintT(<<"ST", TLCFP(vw), TLCFP(<<vw, 1>>), ToJson([ents |-> Shown(ents)])>>)
 ExportTrans == PrintT(<<"TR", TLCFP(vw), TLCFP(<<vw, 1>>), TLCFP(vw'), TLCFP(<<vw', 1>>),
                         ToJson([last' EXCEPT !.alt = IF @ = <<>> THEN <<>> ELSE Shown(@)])>>)
